@@ -29,6 +29,7 @@ type c04exchange struct {
 	skipAsked int
 	executes  int
 	prepares  int
+	followUps int // requests that carried the paging state of this exchange's response
 }
 
 type c04node struct {
@@ -92,6 +93,18 @@ func (cn *c04node) handler(sc *fakenode.ServerConn, req *fakenode.Req) {
 		sc.Reply(req, cqlref.OpError, p, cqlref.BodyError(v, ex.err))
 	case "rows", "prepared-rows":
 		meta := ex.rows.meta
+		if req.Params != nil && req.Params.HasPagingState && meta.MorePages && bytes.Equal(req.Params.PagingState, meta.PagingState) {
+			// the caller pages automatically and asks for what follows: an empty last page
+			ex.mu.Lock()
+			ex.followUps++
+			ex.mu.Unlock()
+			meta.MorePages, meta.PagingState = false, nil
+			if req.Params.SkipMeta {
+				meta.NoMetadata = true
+			}
+			sc.Reply(req, cqlref.OpResult, p, cqlref.BodyRows(v, &cqlref.RowsSpec{Meta: meta}))
+			return
+		}
 		ex.mu.Lock()
 		ex.executes++
 		if req.Params != nil && req.Params.SkipMeta {
@@ -231,7 +244,10 @@ func c04sessionCase(c *runner.Ctx, i int) {
 			}
 			checkTrace()
 		case "rows", "prepared-rows":
-			if ex.rows.meta.MorePages {
+			// has_more_pages: either the caller pages by hand (one page only), or the driver asks for what follows -
+			// also when this page holds no rows
+			autoPage := ex.rows.meta.MorePages && len(ex.rows.meta.PagingState) > 0 && r.Intn(2) == 0
+			if ex.rows.meta.MorePages && !autoPage {
 				q.PageState(nil) // one page only
 			}
 			consumer := []string{"scan", "scanner", "mapscan", "slicemap"}[r.Intn(4)]
@@ -285,6 +301,18 @@ func c04sessionCase(c *runner.Ctx, i int) {
 				}
 			} else if len(state) != 0 {
 				fail("paging-state", fmt.Sprintf("Iter.PageState() = %x, the response carried none", state))
+			}
+			if autoPage && ex.rows.consumed {
+				ex.mu.Lock()
+				fu := ex.followUps
+				ex.mu.Unlock()
+				c.Add("session_has_more_pages_followed", 1)
+				if len(ex.rows.vals) == 0 {
+					c.Add("session_empty_page_with_more_pages", 1)
+				}
+				if fu != 1 {
+					fail("has-more-pages", fmt.Sprintf("the response (%d rows) had has_more_pages set and a paging state; after the rows were read to the end the node had received %d requests carrying that state, want 1", len(ex.rows.vals), fu))
+				}
 			}
 			checkTrace()
 			if ex.kind == "prepared-rows" {
